@@ -7,6 +7,7 @@ import time
 from fractions import Fraction
 
 from harness import common as C
+from harness import history as H
 from harness import impl, trees
 from harness.translate import t_kind
 
@@ -81,7 +82,7 @@ def build(case):
         d["root_height"] = impl.param_json("root_height", [r[-1:] for r in x] if B else x[0][-1:])
     else:
         d["shifts"] = impl.param_json("shifts", x if B else x[0])
-    return ReparameterizedTimeTreeModel.from_json(d, {})
+    return H.tracked(ReparameterizedTimeTreeModel, d)
 
 
 def run_impl(case):
@@ -122,6 +123,8 @@ def coq_case(case, out, row):
 
 
 def near(a, b, rtol=1e-9, atol=1e-12):
+    if not (math.isfinite(a) and math.isfinite(b)):
+        return False
     return abs(Fraction(a) - Fraction(b)) <= Fraction(rtol) * max(abs(Fraction(a)), abs(Fraction(b))) + Fraction(atol)
 
 
@@ -249,6 +252,34 @@ def run(tier, seed, replay=None):
             if not fs:
                 rep.violation(f"C06:model-impl-differ:{c['kind']}", f"{bad}; case {c}",
                               dict(case=c, row=r, broken="correspondence M_height vs tree_height_transform.py/tree_model.py"), False)
+    # ---- same-object histories: heights / branch lengths / inverse after assignments == fresh object
+    t0 = time.time()
+    hrng = random.Random(seed + 17)
+    nh, hist_found = 0, {}
+    okc = [c for c, o in zip(cases, outs) if not isinstance(o, Exception) and not c["ops"]]
+    hrng.shuffle(okc)
+    for c in okc[:(80 if tier == "quick" else 500)]:
+        try:
+            tm = build(c)
+        except Exception:
+            continue
+
+        def obs(o):
+            nhs = o.node_heights.detach()
+            return [nhs.tolist(), o.branch_lengths().detach().tolist(),
+                    o.transform.inv(nhs[..., c["n"]:]).detach().tolist()]
+        fs = H.run(tm, obs, hrng, steps=2, reads=[("node_heights", lambda o: o.node_heights),
+                                                  ("branch_lengths", lambda o: o.branch_lengths()),
+                                                  ("call", lambda o: o())])
+        nh += 1
+        for f in fs:
+            k = f"C06:history:{c['kind']}:batched={c['B'] is not None}"
+            hist_found.setdefault(k, (k, f"after the history {f['history']} node_heights / branch_lengths() / inverse of "
+                                         f"the same tree model differ from a freshly built one: {f['on_same_object']} vs "
+                                         f"{f['fresh_object']}", dict(case=c, history=f)))
+    for f in hist_found.values():
+        rep.violation(*f)
+    rep.timings["histories"] = round(time.time() - t0, 2)
     rep.rule = ("all rooted binary topologies for 3..4 taxa (quick) / 3..6 taxa (thorough) with random child order, "
                 "plus random/caterpillar/balanced trees up to 12 (30) taxa; dates isochronous / ages / calendar with "
                 "ties; ratio or shift parameterisation; batch [] or [B]; random cpu()/to() prefixes; non-trivial = at "
